@@ -348,6 +348,7 @@ impl C16GoalBias {
                 r_out: 0.25 * d,
             }],
             only_inside: None,
+            sballs: vec![],
         };
         let pc = PlanCase {
             space: a.space.clone(),
